@@ -1,5 +1,5 @@
 From Coq Require Import Extraction ExtrOcamlBasic ExtrOcamlString.
-From Oras Require Import Base.Prelude Base.FlatFS Model.Base64 Model.CredFile Model.CredSave.
+From Oras Require Import Base.Prelude Base.FlatFS Model.Utf8 Model.Json Model.Base64 Model.CredFile Model.CredSave Model.JsonDoc Model.JsonRead.
 Extraction Language OCaml.
 
 (* the runner instantiates the base64 parameters with the concrete codec *)
@@ -9,9 +9,10 @@ Definition x_candidates := get_candidates b64_decode.
 Definition x_run_sched := run_sched b64_encode b64_decode.
 Definition x_to_hostname := to_hostname.
 Definition x_saves := saves.
+Definition x_entry_bytes := entry_bytes b64_encode.
 Definition x_fs_step := fs_step b64_encode b64_decode.
 Definition x_encode_auth := encode_auth b64_encode.
 Definition x_decode_auth := decode_auth b64_decode.
 
-Extraction "xc18.ml" x_open_store x_step x_candidates x_run_sched x_to_hostname x_saves x_fs_step x_encode_auth x_decode_auth
-  save_steps cut_at exec_all fget dget b64_encode b64_decode mode_file mode_dir.
+Extraction "xc18.ml" x_open_store x_step x_candidates x_run_sched x_to_hostname x_saves x_entry_bytes x_fs_step x_encode_auth x_decode_auth
+  json_quote json_unquote render_file retire open_bytes open_dynamic ds_route save_steps failed_save_steps cut_at exec_all fget dget b64_encode b64_decode mode_file mode_dir.
